@@ -185,3 +185,19 @@ impl<V> DotBuilder for SchemeMatcher<V> {
         Some(node_name)
     }
 }
+
+#[cfg(feature = "verif")]
+mod verif_hooks {
+    use super::SchemeMatcher;
+    use crate::router::verif_hooks::VerifRouterDump;
+
+    impl<T> SchemeMatcher<T> {
+        pub(crate) fn verif_walk(&self, path: &str, dump: &mut VerifRouterDump) {
+            self.any_scheme.verif_walk(format!("{path}scheme=*").as_str(), dump);
+
+            for (scheme, matcher) in &self.schemes {
+                matcher.verif_walk(format!("{path}scheme={scheme}").as_str(), dump);
+            }
+        }
+    }
+}
